@@ -49,7 +49,7 @@ LEAF_KINDS = ["int", "float", "bool", "none", "str", "path", "list", "tuple", "d
 TYPE_POOL = ["ndarray", "Tensor", "list", "tuple", "dict", "set", "str", "int", "float", "bool",
              "Node", "Leaf", "Other", "Path", "Module", "Inner", "integer", "PosixPath"]
 C14_NAMES = ["a", "b", "c", "data", "_p", "x1", "info", "child", "p", "arr", "t", "k-1", "a.b",
-             "ab", "arr2", "_p_", ".h", "fa"]
+             "ab", "arr2", "_p_", ".h", "fa", "A", "_a"]
 
 
 def _types(names):
@@ -105,14 +105,14 @@ def gen(rng: Rng, tier, i):
     present = sorted({n for n, _, _ in names})
     r = rng.fork("skip")
     S = r.subset(present, p=r.pick([0.15, 0.3, 0.6]), at_least=1)
-    S += r.subset(["absent1", "zz", "values", "0"], p=0.3)
+    S += r.subset(["absent1", "zz", "values", "0", "summary", "kind"], p=0.3)
     r.shuffle(S)
     cut = r.randrange(len(S) + 1)
     S1, S2 = S[:cut], S[cut:]
     if r.chance(0.3) and S1 and S2:
         S2 = S2 + [S1[0]]  # overlap is legal
     T = r.subset(TYPE_POOL, p=0.2, at_least=1)
-    form = r.pick(["list", "tuple", "bare" if len(S) == 1 else "list"])
+    form = r.pick(["list", "tuple", "bare" if len(S) == 1 else "list", "set"])
     store = rng.pick(["zip", "dir"])
     return {"graph": g, "S": S, "S1": S1, "S2": S2, "T": T, "form": form, "store": store,
             "mix_types_into_names": r.chance(0.15), "h5_second": r.chance(0.3),
@@ -159,6 +159,8 @@ def _skip_arg(names, form, types=()):
         return lst[0]
     if form == "tuple":
         return tuple(lst)
+    if form == "set" and not types:
+        return set(lst)
     return lst
 
 
